@@ -2798,12 +2798,24 @@ LEFT JOIN conversions ON {join_condition}{group_by}{order_clause}{limit_clause}
             else:
                 base_col = f"base.{base_alias}"
 
+            # Accumulate separately within each combination of the other dimensions
+            partition_cols = []
+            for partition_dim_ref, partition_gran in parsed_dims:
+                partition_dim_name = partition_dim_ref.split(".")[1] if "." in partition_dim_ref else partition_dim_ref
+                partition_alias = partition_dim_name
+                if partition_gran:
+                    partition_alias = f"{partition_alias}__{partition_gran}"
+                partition_col = f"base.{partition_alias}"
+                if partition_col != time_dim and partition_col not in partition_cols:
+                    partition_cols.append(partition_col)
+            partition_clause = f"PARTITION BY {', '.join(partition_cols)} " if partition_cols else ""
+
             # Build window function
             if metric.grain_to_date:
                 # Grain-to-date: MTD, QTD, YTD
                 # Partition by the grain period and order within it
                 grain = metric.grain_to_date
-                partition = self._date_trunc(grain, time_dim)
+                partition = ", ".join([self._date_trunc(grain, time_dim)] + partition_cols)
 
                 window_expr = f"{agg_func}({base_col}) OVER (PARTITION BY {partition} ORDER BY {time_dim} ROWS BETWEEN UNBOUNDED PRECEDING AND CURRENT ROW) AS {metric_alias}"
             elif metric.window:
@@ -2812,13 +2824,13 @@ LEFT JOIN conversions ON {join_condition}{group_by}{order_clause}{limit_clause}
                 if len(window_parts) == 2:
                     num, unit = window_parts
                     # For date-based windows, use RANGE
-                    window_expr = f"{agg_func}({base_col}) OVER (ORDER BY {time_dim} RANGE BETWEEN INTERVAL '{num} {unit}' PRECEDING AND CURRENT ROW) AS {metric_alias}"
+                    window_expr = f"{agg_func}({base_col}) OVER ({partition_clause}ORDER BY {time_dim} RANGE BETWEEN INTERVAL '{num} {unit}' PRECEDING AND CURRENT ROW) AS {metric_alias}"
                 else:
                     # Fallback to rows
-                    window_expr = f"{agg_func}({base_col}) OVER (ORDER BY {time_dim} ROWS BETWEEN UNBOUNDED PRECEDING AND CURRENT ROW) AS {metric_alias}"
+                    window_expr = f"{agg_func}({base_col}) OVER ({partition_clause}ORDER BY {time_dim} ROWS BETWEEN UNBOUNDED PRECEDING AND CURRENT ROW) AS {metric_alias}"
             else:
                 # Running total (unbounded window)
-                window_expr = f"{agg_func}({base_col}) OVER (ORDER BY {time_dim} ROWS BETWEEN UNBOUNDED PRECEDING AND CURRENT ROW) AS {metric_alias}"
+                window_expr = f"{agg_func}({base_col}) OVER ({partition_clause}ORDER BY {time_dim} ROWS BETWEEN UNBOUNDED PRECEDING AND CURRENT ROW) AS {metric_alias}"
 
             select_exprs.append(window_expr)
             cumulative_window_entries.append((window_expr, metric_alias))
